@@ -629,7 +629,7 @@ func main() {
 	if thorough {
 		g.exhaustive(5, 0, emit)
 		g.exhaustive(7, 3000, emit)
-		for i := 0; i < 640; i++ {
+		for i := 0; i < 320; i++ {
 			emit(g.randomCase(i, 400, []int{4, 8, 16, 32, 64}))
 		}
 	} else {
